@@ -79,8 +79,19 @@ theorem C05_table_minter_admin_token_merge :
     ∀ m ∈ [updateStartTime, updateStartTradingTime, updatePerAddressLimit, mintTo, mintFor, burnRemaining],
       principal (.minter .tokenMerge) m = minterAdmin := by decide
 
-/-- "minter configuration, airdrops and burn-remaining only for the minter admin" -/
-theorem C05_clause_minter_admin (s : AuthState) (c : Caller) (k : MinterKind) (m : MsgKind) (a : Args) (w : Bool)
+/-- "minter configuration, airdrops and burn-remaining only for the minter admin (the collection creator)".
+
+FULL clause, reading the parenthesis as an identity ("the minter admin IS the collection creator, in every reachable state"):
+
+    theorem C05_clause_minter_admin (s) (c) (k ≠ .base) (m ∈ minterAdminMsgs) (hc : c.addr ≠ s.creator) :
+        step s (.exec c (.minter k) m a w) = none
+
+The unchanged code does NOT satisfy that: `Config.extension.admin` is written once, at creation (where it equals the
+creator), and no message updates it; `update_collection_info{creator}` moves the collection creator only.  After such a
+hand-over the OLD creator keeps every configuration / airdrop / burn-remaining right and the NEW creator has none
+(`C05_clause_minter_admin_counterexample`, replayed on the real contracts: corpus/C05/minter-admin-not-creator.json).
+PROVED part: the rows are reserved to `minterAdmin` — whoever that is — in every state. -/
+theorem C05_clause_minter_admin_partial (s : AuthState) (c : Caller) (k : MinterKind) (m : MsgKind) (a : Args) (w : Bool)
     (hk : k ≠ .base) (hm : m ∈ minterAdminMsgs) (hc : c.addr ≠ s.minterAdmin) :
     step s (.exec c (.minter k) m a w) = none ∧ step' s (.exec c (.minter k) m a w) = s := by
   have ht := C05_table_minter_admin k (Priv.MinterKind.mem_all k) hk m hm
@@ -724,5 +735,378 @@ example : (run Priv.sample [.exec ⟨1003, true⟩ (.collection .base) transferO
 example : step Priv.sample (.inst ⟨10, false⟩ (.minter .vending) true) = none ∧
     step Priv.sample (.inst ⟨1001, true⟩ (.minter .vending) true) = some Priv.sample := by decide
 example : (step' Priv.sample (.sudo (.factory .vending) updateParams 7 true)).params = 7 := by decide
+
+/-! ## The literal "(the collection creator)" fails after a creator hand-over -/
+
+/-- Counter-example to the identity reading of "the minter admin (the collection creator)": from a world right after
+creation (creator 10 = minter admin 10), the creator hands the collection over to 12.  In the resulting REACHABLE state
+the old creator 10 — no longer the collection creator — still passes `mint_to` (and every other configuration / airdrop /
+burn-remaining row), and the new creator 12 is rejected.  The same happens on the real contracts (every vending /
+open-edition / token-merge minter): replay corpus/C05/minter-admin-not-creator.json. -/
+theorem C05_clause_minter_admin_counterexample :
+    let s := run Priv.sample [.exec ⟨10, false⟩ (.collection .base) updateCollectionInfo { newCreator := some 12 } true]
+    s.creator = 12 ∧ s.minterAdmin = 10 ∧
+    (∃ c : Caller, c.addr ≠ s.creator ∧ mintTo ∈ minterAdminMsgs ∧
+        step s (.exec c (.minter .vending) mintTo {} true) = some s) ∧
+    (∀ m ∈ minterAdminMsgs, ∀ a w, step s (.exec ⟨s.creator, false⟩ (.minter .vending) m a w) = none) := by
+  refine ⟨by decide, by decide, ⟨⟨10, false⟩, by decide, by decide, by decide⟩, ?_⟩
+  intro m hm a w
+  exact (C05_clause_minter_admin_partial _ ⟨12, false⟩ .vending m a w (by decide) hm (by decide)).1
+
+/-! ## Default-deny: a message kind the table does not list is reserved -/
+
+/-- `MsgKind.other` (any `ExecuteMsg` variant found in the repo's schema that is not a row of the table) is never public:
+it belongs to the contract's configuration principal, or to nobody (factories, the immutable whitelist) -/
+theorem C05_default_deny :
+    (∀ k ∈ Kind.all, principal k other ≠ anyone) ∧
+    (∀ k ∈ MinterKind.all, principal (.minter k) other = (if k = .base then creator else minterAdmin)) ∧
+    (∀ k ∈ CollKind.all, principal (.collection k) other = creator) ∧
+    (∀ k ∈ WlKind.all, principal (.whitelist k) other = (if k = .immutable then nobody else wlAdmin)) ∧
+    (∀ k ∈ FactoryKind.all, principal (.factory k) other = nobody) ∧
+    principal .splits other = splitsAdmin ∧ principal .group other = groupAdmin := by decide
+
+/-! ## cw_ownable acceptance: exactly the pending owner, strictly before the expiry instant -/
+
+/-- `accept_ownership` on sg721-base / sg721-metadata-onchain succeeds IFF the caller is the pending owner and the
+transfer has not expired; `Expiration::AtTime(t)` is expired from the instant `t` on -/
+theorem C05_accept_ownership_iff (s : AuthState) (c : Caller) (k : CollKind) (a : Args) (w : Bool)
+    (hk : k = .base ∨ k = .metadataOnchain) :
+    step s (.exec c (.collection k) acceptOwnership a w) ≠ none ↔
+      (s.collPending = some c.addr ∧ ∀ t, s.collPendingExpiry = some t → s.now < t) := by
+  have hp : principal (.collection k) acceptOwnership = pendingOwner := by rcases hk with rfl | rfl <;> rfl
+  constructor
+  · intro h
+    cases hst : step s (.exec c (.collection k) acceptOwnership a w) with
+    | none => exact absurd hst h
+    | some s' =>
+      obtain ⟨hauth, heff⟩ := Priv.exec_inv hst
+      rw [hp] at hauth
+      refine ⟨by simpa [authorised] using hauth, ?_⟩
+      intro t ht
+      simp only [effect] at heff
+      split at heff
+      · cases heff
+      · rename_i hex
+        simp [transferExpired, ht] at hex
+        omega
+  · rintro ⟨hpend, hex⟩
+    have hne : transferExpired s = false := by
+      unfold transferExpired
+      cases he : s.collPendingExpiry with
+      | none => rfl
+      | some t => have := hex t he; simp; omega
+    simp [step, hp, authorised, hpend, effect, hne]
+
+/-- the three boundary instants of an expiring transfer: one nanosecond before the expiry the pending owner is accepted,
+at the expiry instant and one nanosecond later he is rejected (and nothing changes) -/
+theorem C05_accept_expiry_boundary (s : AuthState) (c : Caller) (k : CollKind) (a : Args) (w : Bool) (t : Nat)
+    (hk : k = .base ∨ k = .metadataOnchain) (hp : s.collPending = some c.addr) (he : s.collPendingExpiry = some t) (ht : 0 < t) :
+    step { s with now := t - 1 } (.exec c (.collection k) acceptOwnership a w) ≠ none ∧
+    step { s with now := t } (.exec c (.collection k) acceptOwnership a w) = none ∧
+    step { s with now := t + 1 } (.exec c (.collection k) acceptOwnership a w) = none := by
+  refine ⟨?_, ?_, ?_⟩
+  · exact (C05_accept_ownership_iff { s with now := t - 1 } c k a w hk).2 ⟨hp, fun t' h' => by
+      have : t' = t := by simpa [he] using h'.symm
+      subst this; show t' - 1 < t'; omega⟩
+  · cases hst : step { s with now := t } (.exec c (.collection k) acceptOwnership a w) with
+    | none => rfl
+    | some s' =>
+      have := ((C05_accept_ownership_iff { s with now := t } c k a w hk).1 (by simp [hst])).2 t he
+      exact absurd this (Nat.lt_irrefl _)
+  · cases hst : step { s with now := t + 1 } (.exec c (.collection k) acceptOwnership a w) with
+    | none => rfl
+    | some s' =>
+      have := ((C05_accept_ownership_iff { s with now := t + 1 } c k a w hk).1 (by simp [hst])).2 t he
+      have h2 : t + 1 < t := this
+      omega
+
+/-! ## Invariants and finality over histories -/
+
+/-- invariant of every step: an expiry is only ever stored together with a pending owner -/
+theorem C05_inv_pending_expiry (s : AuthState) (op : Op) (h : s.collPending = none → s.collPendingExpiry = none) :
+    (step' s op).collPending = none → (step' s op).collPendingExpiry = none := by
+  cases op with
+  | tick t => simpa [step', step] using h
+  | inst c k w => rw [Priv.step'_inst]; exact h
+  | sudo k m v w =>
+    simp only [step', step]; split
+    · simpa using h
+    · split <;> simpa using h
+  | exec c k m a w =>
+    cases hst : step s (.exec c k m a w) with
+    | none => rw [Priv.step'_of_none hst]; exact h
+    | some s' =>
+      rw [Priv.step'_of_some hst]
+      obtain ⟨_, heff⟩ := Priv.exec_inv hst
+      rcases Priv.effect_inv heff with rfl | ⟨_, _, _, _, rfl⟩ | ⟨_, _, _, rfl⟩ | ⟨_, _, _, rfl⟩ | ⟨_, _, _, _, rfl⟩ |
+        ⟨_, _, _, rfl⟩ | ⟨_, _, _, rfl⟩ | ⟨_, _, _, rfl⟩ | ⟨_, _, rfl⟩ | ⟨_, _, rfl⟩ | ⟨_, _, rfl⟩ <;>
+      first | exact h | (intro _; rfl) | (intro hp; simp at hp)
+
+theorem C05_inv_pending_expiry_run (s : AuthState) (ops : List Op) (h : s.collPending = none → s.collPendingExpiry = none) :
+    (run s ops).collPending = none → (run s ops).collPendingExpiry = none := by
+  induction ops generalizing s with
+  | nil => exact h
+  | cons op ops ih =>
+    simp only [run, List.foldl_cons]
+    exact ih (step' s op) (C05_inv_pending_expiry s op h)
+
+theorem Priv.step'_frozen_creator (s : AuthState) (op : Op) (hf : s.collFrozen = true) :
+    (step' s op).creator = s.creator ∧ (step' s op).collFrozen = true := by
+  cases op with
+  | tick t => simp [step', step, hf]
+  | inst c k w => rw [Priv.step'_inst]; exact ⟨rfl, hf⟩
+  | sudo k m v w =>
+    simp only [step', step]; split
+    · simp [hf]
+    · split <;> simp [hf]
+  | exec c k m a w =>
+    cases hst : step s (.exec c k m a w) with
+    | none => rw [Priv.step'_of_none hst]; exact ⟨rfl, hf⟩
+    | some s' =>
+      rw [Priv.step'_of_some hst]
+      obtain ⟨_, heff⟩ := Priv.exec_inv hst
+      rcases Priv.effect_inv heff with rfl | ⟨_, _, _, hnf, rfl⟩ | ⟨_, _, _, rfl⟩ | ⟨_, _, _, rfl⟩ | ⟨_, _, _, _, rfl⟩ |
+        ⟨_, _, _, rfl⟩ | ⟨_, _, _, rfl⟩ | ⟨_, _, _, rfl⟩ | ⟨_, _, rfl⟩ | ⟨_, _, rfl⟩ | ⟨_, _, rfl⟩
+      all_goals first
+        | exact ⟨rfl, hf⟩
+        | exact ⟨rfl, rfl⟩
+        | (rw [hf] at hnf; cases hnf)
+
+/-- once the collection info is frozen, the creator can never be handed over again: constant over ALL continuations
+(so every creator-reserved message stays with the creator of the freezing instant, for ever) -/
+theorem C05_frozen_creator (s : AuthState) (hf : s.collFrozen = true) (ops : List Op) :
+    (run s ops).creator = s.creator ∧ (run s ops).collFrozen = true := by
+  induction ops generalizing s with
+  | nil => exact ⟨rfl, hf⟩
+  | cons op ops ih =>
+    have h := Priv.step'_frozen_creator s op hf
+    have := ih (step' s op) h.2
+    simp only [run, List.foldl_cons] at this ⊢
+    exact ⟨this.1.trans h.1, this.2⟩
+
+theorem Priv.step'_renounced (s : AuthState) (op : Op) (ho : s.collOwner = none) (hp : s.collPending = none) :
+    (step' s op).collOwner = none ∧ (step' s op).collPending = none := by
+  cases op with
+  | tick t => simp [step', step, ho, hp]
+  | inst c k w => rw [Priv.step'_inst]; exact ⟨ho, hp⟩
+  | sudo k m v w =>
+    simp only [step', step]; split
+    · simp [ho, hp]
+    · split <;> simp [ho, hp]
+  | exec c k m a w =>
+    cases hst : step s (.exec c k m a w) with
+    | none => rw [Priv.step'_of_none hst]; exact ⟨ho, hp⟩
+    | some s' =>
+      rw [Priv.step'_of_some hst]
+      obtain ⟨hauth, heff⟩ := Priv.exec_inv hst
+      rcases Priv.effect_inv heff with rfl | ⟨_, _, _, _, rfl⟩ | ⟨_, _, _, rfl⟩ | ⟨ck, hk, hm, rfl⟩ | ⟨_, _, _, _, rfl⟩ |
+        ⟨_, _, _, rfl⟩ | ⟨_, _, _, rfl⟩ | ⟨_, _, _, rfl⟩ | ⟨_, _, rfl⟩ | ⟨_, _, rfl⟩ | ⟨_, _, rfl⟩
+      all_goals first
+        | exact ⟨ho, hp⟩
+        | exact ⟨hp, rfl⟩
+        | exact ⟨rfl, rfl⟩
+        | skip
+      -- transfer_ownership needs the owner: there is none
+      subst hk; subst hm
+      have ht := (Priv.table_handover.1 ck (Priv.CollKind.mem_all ck)).2.2.2
+      rcases ht with h | h <;> simp [h, authorised, ho] at hauth
+
+/-- renounced ownership is final: once the collection has neither an owner nor a pending owner, it never has one again —
+over ALL continuations nobody can mint, update the trading time, or touch the ownership -/
+theorem C05_renounced_final (s : AuthState) (ho : s.collOwner = none) (hp : s.collPending = none) (ops : List Op) :
+    (run s ops).collOwner = none ∧ (run s ops).collPending = none ∧
+    ∀ (c : Caller) (k : CollKind) (m : MsgKind) a w, m = mint ∨ m = updateStartTradingTime ∨ m = transferOwnership ∨
+        m = acceptOwnership ∨ m = renounceOwnership →
+      step (run s ops) (.exec c (.collection k) m a w) = none := by
+  have hrun : (run s ops).collOwner = none ∧ (run s ops).collPending = none := by
+    induction ops generalizing s with
+    | nil => exact ⟨ho, hp⟩
+    | cons op ops ih =>
+      have h := Priv.step'_renounced s op ho hp
+      simpa only [run, List.foldl_cons] using ih (step' s op) h.1 h.2
+  refine ⟨hrun.1, hrun.2, ?_⟩
+  intro c k m a w hm
+  have ho' := hrun.1
+  have hp' := hrun.2
+  rcases hm with rfl | rfl | rfl | rfl | rfl <;> cases k <;>
+    simp [step, principal, collPrincipal, authorised, ho', hp']
+
+/-! ## History-level: a principal changes only at the hands of the principal of that moment -/
+
+/-- if the collection creator at the end of a history differs from the one at its beginning, then somewhere in the history
+there is an `update_collection_info` sent by the account that was the creator AT THAT MOMENT -/
+theorem C05_creator_change_history (s : AuthState) (ops : List Op) (h : (run s ops).creator ≠ s.creator) :
+    ∃ pre c k a w post, ops = pre ++ .exec c (.collection k) updateCollectionInfo a w :: post ∧
+      c.addr = (run s pre).creator := by
+  induction ops generalizing s with
+  | nil => exact absurd rfl h
+  | cons op ops ih =>
+    by_cases hc : (step' s op).creator = s.creator
+    · have h' : (run (step' s op) ops).creator ≠ (step' s op).creator := by
+        rw [hc]; simpa only [run, List.foldl_cons] using h
+      obtain ⟨pre, c, k, a, w, post, he, hcr⟩ := ih (step' s op) h'
+      exact ⟨op :: pre, c, k, a, w, post, by simp [he], by simpa only [run, List.foldl_cons] using hcr⟩
+    · obtain ⟨c, k, a, w, he, hcr⟩ := (C05_change_needs_principal s op).1 hc
+      exact ⟨[], c, k, a, w, ops, by simp [he], by simpa [run] using hcr⟩
+
+/-- the same for the whitelist admin list: it only ever changes through a whitelist message sent by an account that was
+an admin, while the list was still mutable, at that moment -/
+theorem C05_wl_admins_change_history (s : AuthState) (ops : List Op) (h : (run s ops).wlAdmins ≠ s.wlAdmins) :
+    ∃ pre c k m a w post, ops = pre ++ .exec c (.whitelist k) m a w :: post ∧
+      c.addr ∈ (run s pre).wlAdmins ∧ (run s pre).wlMutable = true := by
+  induction ops generalizing s with
+  | nil => exact absurd rfl h
+  | cons op ops ih =>
+    by_cases hc : (step' s op).wlAdmins = s.wlAdmins
+    · have h' : (run (step' s op) ops).wlAdmins ≠ (step' s op).wlAdmins := by
+        rw [hc]; simpa only [run, List.foldl_cons] using h
+      obtain ⟨pre, c, k, m, a, w, post, he, h1, h2⟩ := ih (step' s op) h'
+      exact ⟨op :: pre, c, k, m, a, w, post, by simp [he], by simpa only [run, List.foldl_cons] using h1,
+        by simpa only [run, List.foldl_cons] using h2⟩
+    · obtain ⟨c, k, m, a, w, he, h1, h2⟩ := (C05_change_needs_principal s op).2.2.1 (Or.inl hc)
+      exact ⟨[], c, k, m, a, w, ops, by simp [he], by simpa [run] using h1, by simpa [run] using h2⟩
+
+/-! ## History-level: a stranger can do nothing privileged and influences nothing -/
+
+/-- the accounts an operation NAMES in its hand-over arguments -/
+def Priv.Op.names (x : Addr) : Op → Bool
+  | .exec _ _ _ a _ =>
+    a.newCreator == some x || a.newOwner == x || a.admins.contains x || a.newAdmin == some x || a.add.contains x
+  | _ => false
+
+/-- `x` holds no role at all in `s` -/
+def Priv.strangerTo (s : AuthState) (x : Addr) : Prop :=
+  x ≠ s.minterAdmin ∧ s.collOwner ≠ some x ∧ s.collPending ≠ some x ∧ x ≠ s.creator ∧ x ∉ s.wlAdmins ∧
+  s.splitsAdmin ≠ some x ∧ x ∉ s.members ∧ s.groupAdmin ≠ some x ∧ x ∉ s.mergeSources
+
+/-- a privileged `execute` sent by `x` -/
+def Priv.Op.privBy (x : Addr) : Op → Bool
+  | .exec c k m _ _ => c.addr == x && privileged k m
+  | _ => false
+
+theorem Priv.Kind.mem_all (k : Kind) : k ∈ Kind.all := by
+  cases k with
+  | factory f => cases f <;> decide
+  | minter m => cases m <;> decide
+  | collection c => cases c <;> decide
+  | whitelist w => cases w <;> decide
+  | splits => decide
+  | group => decide
+
+theorem Priv.principal_not_contractOnly : ∀ k ∈ Kind.all, ∀ m ∈ MsgKind.all, principal k m ≠ contractOnly := by decide
+
+/-- every privileged row rejects an account that holds no role (whether or not it is a contract) -/
+theorem C05_stranger_rejected (s : AuthState) (x : Addr) (ct : Bool) (k : Kind) (m : MsgKind) (a : Args) (w : Bool)
+    (hs : Priv.strangerTo s x) (hp : privileged k m = true) : step s (.exec ⟨x, ct⟩ k m a w) = none := by
+  obtain ⟨h1, h2, h3, h4, h5, h6, h7, h8, h9⟩ := hs
+  have hne : principal k m ≠ anyone := by simpa [privileged] using hp
+  have hnc := Priv.principal_not_contractOnly k (Priv.Kind.mem_all k) m (Priv.MsgKind.mem_all m)
+  have hu : authorised s ⟨x, ct⟩ (principal k m) = false := by
+    cases hcl : principal k m <;> simp_all [authorised]
+    cases hsa' : s.splitsAdmin with
+    | none => rfl
+    | some adm =>
+      simp only [hsa'] at h6
+      simp only [beq_eq_false_iff_ne, ne_eq]
+      intro hh; exact h6 (by rw [hh])
+  simp [step, hu]
+
+theorem Priv.strangerTo_step' (s : AuthState) (x : Addr) (op : Op) (hs : Priv.strangerTo s x) (hn : Priv.Op.names x op = false) :
+    Priv.strangerTo (step' s op) x := by
+  cases op with
+  | tick t => simpa [step', step, Priv.strangerTo] using hs
+  | inst c k w => rw [Priv.step'_inst]; exact hs
+  | sudo k m v w =>
+    simp only [step', step]; split
+    · simpa using hs
+    · split <;> simpa [Priv.strangerTo] using hs
+  | exec c k m a w =>
+    cases hst : step s (.exec c k m a w) with
+    | none => rw [Priv.step'_of_none hst]; exact hs
+    | some s' =>
+      rw [Priv.step'_of_some hst]
+      obtain ⟨_, heff⟩ := Priv.exec_inv hst
+      simp only [Priv.Op.names, Bool.or_eq_false_iff, beq_eq_false_iff_ne, ne_eq, List.contains_eq_mem,
+        decide_eq_false_iff_not] at hn
+      obtain ⟨⟨⟨⟨n1, n2⟩, n3⟩, n4⟩, n5⟩ := hn
+      obtain ⟨h1, h2, h3, h4, h5, h6, h7, h8, h9⟩ := hs
+      rcases Priv.effect_inv heff with rfl | ⟨_, _, _, _, rfl⟩ | ⟨_, _, _, rfl⟩ | ⟨_, _, _, rfl⟩ | ⟨_, _, _, _, rfl⟩ |
+        ⟨_, _, _, rfl⟩ | ⟨_, _, _, rfl⟩ | ⟨_, _, _, rfl⟩ | ⟨_, _, rfl⟩ | ⟨_, _, rfl⟩ | ⟨_, _, rfl⟩
+      · exact ⟨h1, h2, h3, h4, h5, h6, h7, h8, h9⟩
+      · refine ⟨h1, h2, h3, ?_, h5, h6, h7, h8, h9⟩
+        cases hnc : a.newCreator with
+        | none => simpa using h4
+        | some y => simp; intro hxy; exact n1 (by rw [hnc, hxy])
+      · exact ⟨h1, h2, h3, h4, h5, h6, h7, h8, h9⟩
+      · exact ⟨h1, h2, by simpa using fun hh => n2 hh, h4, h5, h6, h7, h8, h9⟩
+      · exact ⟨h1, h3, by simp, h4, h5, h6, h7, h8, h9⟩
+      · exact ⟨h1, by simp, by simp, h4, h5, h6, h7, h8, h9⟩
+      · exact ⟨h1, h2, h3, h4, n3, h6, h7, h8, h9⟩
+      · exact ⟨h1, h2, h3, h4, h5, h6, h7, h8, h9⟩
+      · exact ⟨h1, h2, h3, h4, h5, n4, h7, h8, h9⟩
+      · exact ⟨h1, h2, h3, h4, h5, h6, h7, n4, h9⟩
+      · refine ⟨h1, h2, h3, h4, h5, h6, ?_, h8, h9⟩
+        simp only [updMembers, List.mem_filter, List.mem_append, not_and]
+        intro hmem
+        rcases hmem with hm | hm
+        · exact absurd hm h7
+        · exact absurd hm.1 n5
+
+/-- NON-INTERFERENCE over histories.  Let `x` hold no role in `s`, and let nobody in the history `ops` name `x` in a
+hand-over.  Then, whatever `x` and everybody else send (any messages, any order, sudo and time included):
+(1) `x` still holds no role at the end; (2) every privileged message `x` sends anywhere in the history fails;
+(3) the final authorisation state is exactly the one of the history with all of `x`'s privileged messages deleted. -/
+theorem C05_stranger_history (s : AuthState) (x : Addr) (ops : List Op)
+    (hs : Priv.strangerTo s x) (hn : ∀ op ∈ ops, Priv.Op.names x op = false) :
+    Priv.strangerTo (run s ops) x ∧
+    (∀ pre op post, ops = pre ++ op :: post → Priv.Op.privBy x op = true → step (run s pre) op = none) ∧
+    run s (ops.filter fun op => !Priv.Op.privBy x op) = run s ops := by
+  induction ops generalizing s with
+  | nil =>
+    refine ⟨hs, ?_, rfl⟩
+    intro pre op post h; simp at h
+  | cons op ops ih =>
+    have hs1 := Priv.strangerTo_step' s x op hs (hn op (by simp))
+    obtain ⟨i1, i2, i3⟩ := ih (step' s op) hs1 (fun o ho => hn o (by simp [ho]))
+    have hfail : Priv.Op.privBy x op = true → step s op = none := by
+      intro hp
+      cases op with
+      | exec c k m a w =>
+        simp only [Priv.Op.privBy, Bool.and_eq_true, beq_iff_eq] at hp
+        obtain ⟨hcx, hpk⟩ := hp
+        have : c = ⟨x, c.isContract⟩ := by cases c; simp_all
+        rw [this]; exact C05_stranger_rejected s x c.isContract k m a w hs hpk
+      | tick t => simp [Priv.Op.privBy] at hp
+      | inst c k w => simp [Priv.Op.privBy] at hp
+      | sudo k m v w => simp [Priv.Op.privBy] at hp
+    refine ⟨by simpa only [run, List.foldl_cons] using i1, ?_, ?_⟩
+    · intro pre o post he hp
+      cases pre with
+      | nil =>
+        simp only [List.nil_append, List.cons.injEq] at he
+        obtain ⟨rfl, _⟩ := he
+        simpa [run] using hfail hp
+      | cons p pre' =>
+        simp only [List.cons_append, List.cons.injEq] at he
+        obtain ⟨rfl, he'⟩ := he
+        simpa only [run, List.foldl_cons] using i2 pre' o post he' hp
+    · cases hpb : Priv.Op.privBy x op with
+      | true =>
+        have hnone := hfail hpb
+        have hst : step' s op = s := Priv.step'_of_none hnone
+        simp only [List.filter_cons, hpb, Bool.not_true, Bool.false_eq_true, if_false, run, List.foldl_cons]
+        rw [hst] at i3 ⊢
+        simpa only [run] using i3
+      | false =>
+        simp only [List.filter_cons, hpb, Bool.not_false, if_true, run, List.foldl_cons]
+        simpa only [run] using i3
+
+/-- non-vacuity: account 99 holds no role in the sample world; the history below (99 trying everything, a real hand-over
+to 12 in between) leaves the same state as the history without 99's messages -/
+example : Priv.strangerTo Priv.sample 99 := by simp [Priv.strangerTo, Priv.sample]
+example : run Priv.sample [.exec ⟨99, false⟩ (.minter .vending) mintTo {} true,
+                           .exec ⟨10, false⟩ (.collection .base) updateCollectionInfo { newCreator := some 12 } true,
+                           .exec ⟨99, false⟩ (.collection .base) updateCollectionInfo { newCreator := some 13 } true]
+        = run Priv.sample [.exec ⟨10, false⟩ (.collection .base) updateCollectionInfo { newCreator := some 12 } true] := by decide
 
 end LP
